@@ -1022,7 +1022,7 @@ def plan(tier):
     q = tier == "quick"
     P = [
         # parsed single documents: every tag, every node kind (the tree a Builder stage holds)
-        ("parsed", "C19_ParsedQ" if q else "C19_Parsed", "WholeRange", "parse", (1, 1), dict(protos=("pickle", "deepcopy")), False, 16 if q else 2),
+        ("parsed", "C19_ParsedQ" if q else "C19_Parsed", "WholeRange", "parse", (1, 1), dict(protos=("pickle", "deepcopy")), False, 16 if q else 8),
         # small parsed set: three protocols, both safe flags
         ("parsed-small", "C19_ParsedS", "WholeRange", "parse", (1, 1), dict(protos=("pickle", "deepcopy", "copy"), safes="{TRUE, FALSE}"), False, 4),
         # ... x every mutation of either side (action property Isolated)
@@ -1030,16 +1030,15 @@ def plan(tier):
         ("lists-edit", "C19_Lists", "WholeRange", "fold", (1, 1), dict(protos=("pickle", "deepcopy"), maxedits=1 if q else 2, maxmut=0), False, 1),
         ("keys", "C19_Keys", "WholeRange", "parse", (1, 1), dict(protos=("pickle", "deepcopy")), False, 1),
         # merged trees
-        ("hist", "C19_HistQ" if q else "C19_Hist", "C19_HistRangeQ" if q else "C19_HistRange", "fold", (2, 2), dict(protos=("pickle", "deepcopy")), False, 24 if q else 3),
+        ("hist", "C19_HistQ" if q else "C19_Hist", "C19_HistRangeQ" if q else "C19_HistRange", "fold", (2, 2), dict(protos=("pickle", "deepcopy")), False, 24 if q else 12),
         ("c03-md", "C03_DocsMd", "WholeRange", "fold", (2, 2), dict(protos=("pickle", "deepcopy")), False, 8 if q else 1),
-        ("c08-del", "C08_DocsD", "C08_RangeD", "fold", (2, 2), dict(protos=("pickle", "deepcopy")), False, 16 if q else 2),
+        ("c08-del", "C08_DocsD", "C08_RangeD", "fold", (2, 2), dict(protos=("pickle", "deepcopy")), False, 16 if q else 6),
         ("c04-lists", "C04_DocsL", "C04_RangeL", "fold", (2, 2) if q else (2, 3), dict(protos=("pickle", "deepcopy")), False, 8 if q else 2),
     ]
     if not q:
-        P += [("c03", "C03_Docs", "WholeRange", "fold", (2, 2), dict(protos=("pickle", "deepcopy")), False, 4),
-              ("c03-3", "C03_Docs3", "WholeRange", "fold", (3, 3), dict(protos=("pickle", "deepcopy")), False, 8),
-              ("c08", "C08_Docs", "C08_Range", "fold", (2, 2), dict(protos=("pickle", "deepcopy")), False, 8),
-              ("c04", "C04_Docs", "C04_Range", "fold", (2, 2), dict(protos=("pickle", "deepcopy")), False, 16),
+        P += [("c03", "C03_Docs", "WholeRange", "fold", (2, 2), dict(protos=("pickle", "deepcopy")), False, 8),
+              ("c03-3", "C03_DocsMdS", "WholeRange", "fold", (3, 3), dict(protos=("pickle", "deepcopy")), False, 16),
+              ("c08", "C08_Docs", "C08_Range", "fold", (2, 2), dict(protos=("pickle", "deepcopy")), False, 32),
               ("hist-mut", "C19_HistQ", "C19_HistRangeQ", "fold", (2, 2), dict(protos=("deepcopy",), maxmut=1, ctx=False), True, 0)]
     return P
 
@@ -1089,7 +1088,7 @@ def run(prop, tier, seed, replay, keep):
     pool = mp.get_context("fork").Pool(16, initializer=_init_worker, initargs=(universes, ctxs, REPO))
     try:
         # ---- direction B recording starts first (pure python, runs while TLC explores)
-        ntr = 400 if quick else 6000
+        ntr = 400 if quick else 4000
         per = 25
         rec_async = pool.map_async(_record_chunk, [(list(range(a, min(a + per, ntr + 1))), seed) for a in range(1, ntr + 1, per)])
 
@@ -1126,7 +1125,7 @@ def run(prop, tier, seed, replay, keep):
                             return False
                         hv = sum(ln["h"]) * 7 + len(ln["p"])
                         if ln.get("mm"):
-                            return hv % (4 if quick else 1) == 0
+                            return hv % (4 if quick else 3) == 0
                         return hv % bn == 0
                     args = [(ent[1], ent[3], ln, pick(ln), 6 if (ln.get("mm") or not quick) else 2) for ln in lines]
                     asyncs[nm] = (lines, pool.map_async(replay_line, args, chunksize=max(1, len(args) // 256)))
@@ -1193,7 +1192,7 @@ def run(prop, tier, seed, replay, keep):
 
         # ---- direction B + explanation of direction A's failing / mismatch cases: TLC on the as-is machine
         recs = [x for chunk in rec_async.get(timeout=tmo) for x in chunk]
-        cap = 500 if quick else 6000
+        cap = 500 if quick else 4000
         if len(pending) > cap:
             # every copy that breaks a formula is judged; of those that agree (sent because the tree has a flag mismatch)
             # a seeded sample; of many failing copies of one kind (same universe, same formulas) a seeded sample as well
